@@ -6,7 +6,7 @@ from bounded.common import quiet
 ELS = ['C', 'N', 'O', 'H', 'Zr']
 
 
-def mk(n, terms=True, coeffs=True, extra=True, cell='ortho', seed=0, labels=True, typed=None):
+def mk(n, terms=True, coeffs=True, extra=True, cell='ortho', seed=0, labels=True, typed=None, kinds=None):
     """Structure with n atoms (n <= 6), a fixed pool of terms restricted to existing atoms, type tables."""
     from mofun import Atoms
     rnd = random.Random(seed * 7919 + n)
@@ -30,7 +30,7 @@ def mk(n, terms=True, coeffs=True, extra=True, cell='ortho', seed=0, labels=True
         pool_i = [(1, 0, 2, 3), (3, 1, 2, 4), (5, 4, 3, 2)]
         for name, plural, pool, nt in (('bond', 'bonds', pool_b, 3), ('angle', 'angles', pool_a, 2), ('dihedral', 'dihedrals', pool_d, 2), ('improper', 'impropers', pool_i, 2)):
             ts = [t for t in pool if max(t) < n]
-            if not ts:
+            if not ts or (kinds is not None and name not in kinds):
                 continue
             kw[plural] = ts
             kw[name + '_types'] = [(i + seed) % nt for i in range(len(ts))]
